@@ -10,7 +10,7 @@ from ..gen_lean import Def
 from ..runner import Corr, Failure
 from .c10 import cxvars
 
-LEAN_MODULES = ['SvgVerif.Props.C14', 'SvgVerif.Props.C14General']
+LEAN_MODULES = ['SvgVerif.Props.C14', 'SvgVerif.Props.C14General', 'SvgVerif.Props.C14Green']
 
 SHAPES = {
     # name: (kinds of the segments, number of distinct points); the last segment returns to p0
